@@ -19,7 +19,7 @@ def dispatch (line : String) : String :=
     | "sig" :: _ | "delta" :: _ | "patch" :: _ => C01.handle toks
     | "bi" :: _ | "biplan" :: _ => C02.handle toks
     | "bisteps" :: _ => C08.handle toks
-    | "ow" :: _ | "escape" :: _ | "ansic" :: _ | "loc" :: _ | "target" :: _ => C04.handle toks
+    | "ow" :: _ | "escape" :: _ | "ansic" :: _ | "loc" :: _ | "target" :: _ | "walk" :: _ => C04.handle toks
     | "serve" :: _ | "safejoin" :: _ | "hubcalls" :: _ | "hubmulti" :: _ => C12.handle toks
     | "ck" :: _ => C17.handle toks
     | "glob" :: _ | "excl" :: _ | "plan" :: _ | "nt" :: _ | "parse" :: _ | "render" :: _ => C19.handle toks
